@@ -85,6 +85,9 @@ func (r *Run) Failf(signature, format string, args ...any) {
 	r.failure = &Failure{Signature: signature, Message: fmt.Sprintf(format, args...)}
 }
 
+// Failure returns the recorded failure (nil if none).
+func (r *Run) Failure() *Failure { return r.failure }
+
 // Failed reports whether a failure was recorded.
 func (r *Run) Failed() bool { return r.failure != nil }
 
